@@ -674,7 +674,7 @@ def layouts(rng):
     """Programs that stress who-writes-which-chunk: multi-stage rechunks under tight budgets (regular and irregular
     intermediate grids), stores into existing arrays with equal / finer / coarser / coprime chunks, sharded targets,
     region stores at aligned offsets, multi-output operators.  May carry its own Spec settings (prog['spec'])."""
-    kind = rng.choice(["rechunk", "rechunk", "rechunk", "store", "store", "shard", "region", "unstack"])
+    kind = rng.choice(["rechunk", "rechunk", "rechunk", "store", "store", "shard", "shard", "region", "unstack"])
     if kind == "rechunk":
         # prefer geometries/budgets for which cubed's planner needs several copy operations (cheap to find: no execution)
         best = None
